@@ -42,6 +42,10 @@ def check(repo, res, tier):
     check_coupling(repo, res, 'C02.P4', canon)
     prov_counter(repo, res, canon, us)
     p5(repo, res)
+    from . import initial
+    res.rule('C02.P10', 'initial state: every usage counter starts as the size of the container it mirrors, as '
+                        'initialised in the same constructor (P4 only follows the changes)')
+    initial.check_cluster_counters(repo, res, 'C02.P10')
     from . import c09
     from .common import borrow
     res.rule('C02.P6', 'adopted C09.R4: a machine finishing work for a reserved observation returns to that reservation '
